@@ -47,7 +47,12 @@ def loaded_model(draw, big=False):
             l['attach'] = [{'all': True, 'tag': t} for t in draw(st.lists(st.sampled_from(tagsl), min_size=1, max_size=len(tagsl), unique=True))]
         lds.append(l)
     if draw(st.integers(0, 3)) > 0:
-        lds.append({'kind': draw(st.sampled_from(['skin_c', 'skin_r'])), 'v': gen.r6(draw(gen.logf(1e-7, 1e7))), 'tag': draw(st.sampled_from([None] + tagsl))})
+        if draw(st.booleans()):
+            lds.append({'kind': draw(st.sampled_from(['skin_c', 'skin_r'])), 'v': gen.r6(draw(gen.logf(1e-7, 1e7))), 'tag': draw(st.sampled_from([None] + tagsl))})
+        else:
+            # one load per tag, for several tags in a drawn order
+            for t_ in draw(st.lists(st.sampled_from(tagsl), min_size=1, max_size=len(tagsl), unique=True)):
+                lds.append({'kind': 'skin_c', 'v': gen.r6(draw(gen.logf(1e3, 1e7))), 'tag': t_})
     if draw(st.integers(0, 2)) > 0:
         tg = draw(st.sampled_from([None] + tagsl))
         rr = max(o['obj']['r'] for o in objs) if tg is None else [o['obj']['r'] for o in objs if o['tag'] == tg][0]
